@@ -139,6 +139,9 @@ def setup_config(
             store_p = os.path.join(load_dir, str(act), "traj.txt")
             if not os.path.isfile(store_p):
                 return None
+
+        # a crash may have left rows of still active paths in the data file
+        remove_rows_of_active_paths(config)
     else:
         # no 'current' in toml, start from step 0.
         size = len(config["simulation"]["interfaces"])
@@ -274,6 +277,37 @@ def check_config(config: dict) -> None:
                         + " settings of one of the engines in"
                         + " 'infretis.mdp'!"
                     )
+
+
+def remove_rows_of_active_paths(config: dict) -> None:
+    """Remove data rows that belong to paths the restart file lists as live.
+
+    The row of a replaced path is appended to the data file before the
+    restart file is updated. If the run dies in between, the restart
+    file still lists the path as active while its (possibly only half
+    written) row is already in the data file; the row is written again
+    when the path is replaced after the restart.
+
+    Args
+        config: the configuration dictionary
+    """
+    data_file = config["output"].get("data_file", "")
+    if not os.path.isfile(data_file):
+        return
+    active = {str(act) for act in config["current"]["active"]}
+    with open(data_file, encoding="utf-8") as read:
+        lines = read.readlines()
+    keep = []
+    for line in lines:
+        if not line.startswith("#"):
+            spl = line.split()
+            if not line.endswith("\n") or (spl and spl[0] in active):
+                continue
+        keep.append(line)
+    if keep != lines:
+        with open(data_file + ".tmp", "w", encoding="utf-8") as write:
+            write.writelines(keep)
+        os.replace(data_file + ".tmp", data_file)
 
 
 def write_header(config: dict) -> None:
